@@ -278,7 +278,9 @@ def reorderCS (cs : CoordSys) (o : Order) : Except Err (List Nat × CoordSys) :=
   match resolveOrder cs o with
   | .error e => .error e
   | .ok ord =>
-    if ord.any (fun i => decide (cs.names.length ≤ i)) then .error .indexError
+    -- `_checked_order`: anything that is not a permutation of the axis indices is a ValueError
+    if !(ord.isPerm (List.range cs.names.length)) then .error .valueError
+    else if ord.any (fun i => decide (cs.names.length ≤ i)) then .error .indexError
     else match mkCS (ord.map fun i => cs.names.getD i "") cs.name cs.dtype with
       | .error e => .error e
       | .ok ncs => .ok (ord, ncs)
